@@ -2,6 +2,7 @@ import TongoProofs.Lemmas.WalletMsg
 import TongoProofs.Lemmas.HighloadDict
 import TongoProofs.Lemmas.WalletExt
 import TongoProofs.Lemmas.WalletInt
+import TongoProofs.Lemmas.WalletExtra
 import TongoProofs.Lemmas.SigIdeal
 import TongoProofs.Lemmas.HashTree
 import TongoProofs.Lemmas.CellOrdSpec
@@ -624,6 +625,22 @@ theorem too_many_refused (loop : Nat → Nat → List Poll → Bool) (v : Versio
   · intro b msgs h; exact ⟨"PayloadHighload supports only up to 254 messages", by simp [payloadHighload, h]⟩
 
 /-! ### defects repaired, as negations about the code before the repair -/
+
+/-- **Extra currencies** (`SimpleTransfer.ExtraCurrency`): what `ToInternal` puts into the value of the outgoing message —
+`hme_empty$0` for none, otherwise `hme_root$1` and a dictionary `HashmapE 32 (VarUInteger 32)` keyed by `uint32(id)` — is
+read back by the `ExtraCurrencyCollection` decoder at that position as exactly the requested (id, amount) pairs, in
+ascending id order; the builder can only succeed when the ids are pairwise distinct. (Field-level composition through
+the dictionary theorems of C05; the whole-message layout theorems `internal_message_layout` / `carried_init_is_requested`
+are stated for messages WITHOUT extra currencies; with them the whole message is compared with Go by `m.int` /
+`m.intdec` and the oracle `go.m.modes` on every run.) -/
+theorem extra_currencies_carried (b : CellB) (extra : List (Nat × Nat)) (hne : extra ≠ []) (hid : ∀ p ∈ extra, p.1 < 2 ^ 32)
+    (hamt : ∀ p ∈ extra, byteLen p.2 ≤ 31) (b' : CellB) (h : writeExtra b extra = .ok b') (rest : List Bool) (refs : List Cell) :
+    ∃ d, b' = { bits := b.bits ++ [true], refs := b.refs ++ [d] } ∧
+      (Hashmap.keysOf (extraKvs extra)).Nodup ∧
+      readExtra { bits := true :: rest, refs := d :: refs } =
+        .ok ((Hashmap.sortKV (extraKvs extra)).map (fun kv => (bitsToNat kv.1, kv.2)), { bits := rest, refs := refs }) := by
+  obtain ⟨d, hd, hb, hr⟩ := (extra_currencies_roundtrip b extra hid hamt b' h rest refs).2 hne
+  exact ⟨d, hb, (extra_dict_roundtrip extra hne hid hamt d hd).1, hr⟩
 
 /-- Both sides of the boundary: a batch of EXACTLY the version's maximum (4 for v3/v4, 254 for v5 beta and highload,
 255 for v5r1) — and every smaller one — passes the guard and is sent (one message, to the wallet's own address); one
